@@ -1,11 +1,13 @@
 (** C19 - reported references cover every name a program can look up.
     [ref_vars] / [ref_funs] transcribe Program::references.  Soundness is proved for every
-    expression and context.  The converse (no undeclared-reference failure when everything
-    reported is defined) is evaluated on the implementation by the correspondence run and is not
-    a theorem yet: partial. *)
+    expression and context; so is the converse (no undeclared-reference failure when everything
+    reported is defined) for every expression without free macro-internal identifiers - which is
+    what the parser produces ([C19_expansions_closed]; the C19 stream checks [no_free_at] on every
+    compiled program). *)
 From Coq Require Import String.
 From Cel.Model Require Import Eval Refs.
-From Cel.Proofs Require Import EvalBase NoCrash RefsProofs.
+From Cel.Model Require Import Macros.
+From Cel.Proofs Require Import EvalBase NoCrash RefsProofs RefsComplete.
 
 (** If executing a program fails because a name is undeclared, that name is among the
     variables or functions the program reports - unless it is a macro-internal '@' name, which
@@ -32,6 +34,23 @@ Proof. intros; split; [apply run_builtin_plain|apply run_host_plain]. Qed.
 Theorem C19_vars_are_identifiers : forall x, ref_vars (EIdent x) = (if starts_at x then [] else [x]).
 Proof. reflexivity. Qed.
 
+(** Conversely: when the context defines every reported variable and function, execution never
+    fails with an undeclared reference (whatever else it does). *)
+Theorem C19_complete : forall e c, no_free_at e = true ->
+  (forall x, In x (ref_vars e) -> exists v, lookup c x = Ok v) ->
+  (forall f, In f (ref_funs e) -> get_function c f <> None) ->
+  forall n, fst (eval c e) <> Err (EUndeclared n).
+Proof. exact refs_complete_reported. Qed.
+
+(** The six macro expansions bind the accumulator they introduce: expanding closed pieces under
+    an ordinary iteration variable gives a closed expression. *)
+Theorem C19_expansions_closed : forall r x p q,
+  no_free_at r = true -> no_free_at p = true -> no_free_at q = true -> starts_at x = false ->
+  no_free_at (expand_all r x p) = true /\ no_free_at (expand_exists r x p) = true /\
+  no_free_at (expand_exists_one r x p) = true /\ no_free_at (expand_map r x None p) = true /\
+  no_free_at (expand_map r x (Some q) p) = true /\ no_free_at (expand_filter r x p) = true.
+Proof. exact expansions_closed. Qed.
+
 Example C19_ex :
   ref_vars (ECall $"f" (Some (EIdent $"a")) [EIdent $"b"; EIdent $"@result"]) = [$"a"; $"b"] /\
   ref_funs (ECall $"f" (Some (EIdent $"a")) [EIdent $"b"]) = [$"f"].
@@ -43,3 +62,5 @@ Print Assumptions C19_sound.
 Print Assumptions C19_no_accumulators.
 Print Assumptions C19_functions_do_not_fabricate.
 Print Assumptions C19_vars_are_identifiers.
+Print Assumptions C19_complete.
+Print Assumptions C19_expansions_closed.
